@@ -36,3 +36,31 @@ Example C03_example_wrap :
       [ORet 0 RetFresh (rec_of 7 1); ORet 0 RetFresh (rec_of 7 2); ORet 0 RetFresh (rec_of 7 3)] /\
     latest_val LGen (w_log (m_w m)) = 2.
 Proof. eexists _, _. split; [vm_compute; reflexivity|]. split; vm_compute; reflexivity. Qed.
+
+(* ---------------------------------------------------------------------------------------------
+   Monotonicity for every execution the release/acquire machine admits (same quantification and
+   side conditions as C02_RA): over the observation stream of a run, for each reader, the
+   publication numbers of the records its successive snapshot() calls return never decrease.
+   [idx_of rec] is the number of the write() call that produced [rec] (0 for the empty record). *)
+From CB Require Import SeqlockInv SeqlockRA SeqlockMono.
+
+Theorem C03_monotone_RA : forall c ts m o, safe_cfg c = true -> Forall real_token ts ->
+  m_run (m_init c) ts = (m, o) -> (Z.of_nat (m_nrec m) < 32767)%Z ->
+  sorted_from (fun _ => 0%nat) o.
+Proof.
+  intros c ts m o Hs Hts R Hn.
+  apply (m_run_mono c Hs ts (m_init c) m o (fun _ => 0%nat) (MInv2_init c) Hts R Hn).
+  split; [intros j r H; destruct j; discriminate | reflexivity].
+Qed.
+
+Theorem C03_later_call_never_older : forall c ts m o o1 j ret1 rec1 o2 ret2 rec2 o3,
+  safe_cfg c = true -> Forall real_token ts -> m_run (m_init c) ts = (m, o) -> (Z.of_nat (m_nrec m) < 32767)%Z ->
+  o = o1 ++ ORet j ret1 rec1 :: o2 ++ ORet j ret2 rec2 :: o3 ->
+  (idx_of rec1 <= idx_of rec2)%nat.
+Proof.
+  intros c ts m o o1 j ret1 rec1 o2 ret2 rec2 o3 Hs Hts R Hn E.
+  pose proof (C03_monotone_RA c ts m o Hs Hts R Hn) as S. rewrite E in S. eapply sorted_pairs; eauto.
+Qed.
+
+Theorem C03_idx_of_record : forall n a, (0 < n)%nat -> idx_of (rec_of n a) = a.
+Proof. exact idx_of_rec. Qed.
